@@ -1,19 +1,23 @@
 """C05 — deferred entity deletion is applied at the next process, safely (spec/World.tla)."""
 from . import world_common as wc
 
-ACTS = {'create', 'add', 'remove', 'delete', 'process', 'fault', 'proc'}
 C3 = {'c1': ('A', ('on_add', 'on_remove')), 'c2': ('B', ('on_remove',)), 'c3': ('A', ())}
+C2 = {'c1': ('A', ('on_add', 'on_remove')), 'c2': ('B', ('on_remove',))}
 
 
 def run(res):
     own = wc.OWN['C05']
     th = res.tier == 'thorough'
-    P = wc.procs({'p1': ('P1', ()), 'q': ('Q', ())}, {'P1': ((), 0), 'Q': ((), 5)})
-    K = wc.base(Acts=ACTS, Ids={1, 2}, MaxAuto=1, Types=wc.T2, Bases=wc.BASES2, Prios=set(), **wc.comps(C3), **P)
+    # deferred deletion mixed with every other operation on the same and on other entities; faults: a processor
+    # raises, an on_remove raises at any position of the deletion, an on_remove deletes another entity immediately,
+    # a mark on an identifier that never existed ("ghost")
+    P = wc.procs({'p1': ('P1', ())}, {'P1': ((), 0)})
+    acts = {'create', 'remove', 'delete', 'process', 'fault', 'proc', 'ghost'} | ({'add'} if th else set())
+    K = wc.base(Acts=acts, Ids={1, 2}, MaxAuto=1, Types=wc.T2, Bases=wc.BASES2, Prios=set(), **wc.comps(C3, falsy={'c1'}), **P)
     wc.check_and_replay(res, 'c05_deferred', K, own, depth_all=4 if th else 3, walks=20000 if th else 3000, walk_len=40)
     # with dispatching disabled the removals of the deferred deletion are postponed like any other callback
-    K2 = wc.base(Acts={'create', 'remove', 'delete', 'process', 'toggle'}, Ids={1, 2}, MaxAuto=1, Types=wc.T2, Bases=wc.BASES2,
-                 MaxQ=3, **wc.comps(C3))
+    K2 = wc.base(Acts={'create', 'remove', 'delete', 'process', 'toggle', 'fault'}, Ids={1, 2}, MaxAuto=0, Types=wc.T2, Bases=wc.BASES2,
+                 MaxQ=3 if th else 2, **wc.comps(C2))
     wc.check_and_replay(res, 'c05_disabled', K2, own, depth_all=0, walks=20000 if th else 2000, walk_len=30)
-    wc.trace_validate(res, 'c05_recorded', wc.big({'create', 'add', 'remove', 'delete', 'process', 'toggle', 'proc', 'fault'}), 2000 if th else 150, 60)
-    wc.switch_run(res, 'c05', K, 'ClearDeadGuards', ('ProcessNeverFails', 'RegisteredIffAttached', 'FreedAfterProcess'))
+    wc.trace_validate(res, 'c05_recorded', wc.big({'create', 'add', 'remove', 'delete', 'process', 'toggle', 'proc', 'fault', 'ghost'}), 2000 if th else 150, 60)
+    wc.switch_run(res, 'c05', K, 'ClearDeadGuards', ('ProcessNeverFails', 'RegisteredIffAttached', 'FreedAfterProcess', 'MarksHaveRows'))
